@@ -177,7 +177,7 @@ def worker(inst):
 
 def programs(tier, seed):
     from lang import gen
-    from checks.c08 import SEMIRINGS, gen_sumproducts, gen_sameop
+    from checks.c08 import SEMIRINGS, gen_sumproducts, gen_sameop, gen_mixed, gen_distributive
     from checks.c05 import instances as c05_instances
     rng = random.Random(seed)
     out = []
@@ -191,6 +191,9 @@ def programs(tier, seed):
     for sr in SEMIRINGS:
         out += [("%s/%s" % sr[:2], p) for p in gen_sumproducts(rng, 25 if tier == "quick" else 200, sr[0], sr[1], sr[2], 4 if tier == "quick" else 6)]
     out += [("sameop:" + op, p) for op, car, p in gen_sameop(rng, 30 if tier == "quick" else 300)]
+    out += [("mixed/nonneg", p) for p in gen_mixed(rng, 30 if tier == "quick" else 300)]
+    for sr in SEMIRINGS[:4]:
+        out += [("%s/%s" % sr[:2], p) for p in gen_distributive(rng, 8 if tier == "quick" else 80, sr[0], sr[1], sr[2])]
     c5 = [i for i in c05_instances(tier, seed) if i[0] == "immediate"]
     rng.shuffle(c5)
     out += [("binders", i[2]) for i in c5[:60 if tier == "quick" else 400]]
